@@ -16,6 +16,7 @@ SeqsUpTo(n) == IF n = 0 THEN {<<>>}
                ELSE LET S == SeqsUpTo(n - 1) IN S \cup {Append(s, x) : s \in S, x \in 1..NSym}
 TraceKeys  == SeqsUpTo(4)
 TraceVals  == 1..5
+TraceOps   == {"update", "delete", "get", "prove", "hash", "commit", "reload", "stack", "verify", "corrupt", "copy", "swap"}
 TraceCheck == {<<>>, <<1>>, <<1, 2>>, <<2, 1, 3>>, <<3, 3, 3, 3>>}
 
 Trace == ndJsonDeserialize("trietrace.ndjson")
@@ -46,13 +47,15 @@ Conform(ev, o, cn) ==
 Step(A) ==
     /\ A
     /\ l' = l + 1
-    /\ mismatch' = IF mismatch = <<>> /\ (~Ev.ok \/ ~Conform(Ev, obs', content'))
+    /\ mismatch' = IF mismatch = <<>> /\ (~Ev.ok \/ ~Conform(Ev, obs', content')
+                                          \/ Ev.ho # hasother' \/ (Ev.ho /\ Ev.oc # ContentSeq(ocontent')))
                    THEN <<l, Ev.flavor, Ev.op, Ev.fail, Ev.res, obs'>> ELSE mismatch
 
 TraceReset ==
     /\ Is("tracereset")
     /\ root' = E /\ content' = [k \in Keys |-> NoVal]
     /\ store' = {} /\ committed' = FALSE /\ croot' = E /\ ccontent' = [k \in Keys |-> NoVal]
+    /\ oroot' = E /\ ocontent' = [k \in Keys |-> NoVal] /\ hasother' = FALSE
     /\ step' = 0 /\ obs' = <<"init">> /\ hist' = <<>>
     /\ l' = l + 1 /\ UNCHANGED mismatch
 
@@ -72,6 +75,8 @@ TraceNext ==
     \/ Is("verify")  /\ Step(VerifyOther(Ev.k, Ev.k2))
     \/ Is("corrupt") /\ Step(CorruptAt(Ev.k, Ev.i, Ev.kind))
     \/ Is("stack")   /\ Step(StackBuild)
+    \/ Is("copy")    /\ Step(Copy)
+    \/ Is("swap")    /\ Step(Swap)
 
 TraceSpec == TraceInit /\ [][TraceNext]_tvars
 
